@@ -256,7 +256,7 @@ func runC04(t *simrt.Tape, o Opts) Outcome {
 		st.Class = fmt.Sprintf("%s|%v", pol.Class(), keysOf(crossClass))
 		st.Sample = map[string]any{"history": h.trace, "policy": pol.String()}
 	})
-	return finish(s, w, st, false)
+	return finish(s, w, st, true)
 }
 
 func keysOf(m map[string]bool) []string {
@@ -373,7 +373,7 @@ func runC05(t *simrt.Tape, o Opts) Outcome {
 		st.Class = fmt.Sprintf("%s|%v", pol.Class(), keysOf(classes))
 		st.Sample = map[string]any{"history": h.trace, "policy": pol.String()}
 	})
-	return finish(s, w, st, false)
+	return finish(s, w, st, true)
 }
 
 // storeFaulted reports whether a metastore write failed (was made to fail) inside the operation.
